@@ -184,6 +184,67 @@ fn mk_txout(v: &Value) -> Option<(TxOut, MOut)> {
     Some((TxOut::new(value, &script), MOut { value, script: script_bytes }))
 }
 
+/// The same script with its first data push written with another push opcode (direct push <-> OP_PUSHDATA1 <-> OP_PUSHDATA2):
+/// same items on the stack, different serialisation. None when there is no push or the library does not keep the encoding.
+fn reencode_first_push(script: &[u8]) -> Option<Vec<u8>> {
+    let mut p = 0;
+    while p < script.len() {
+        let op = script[p];
+        let (hdr, len, next_hdr): (usize, usize, Option<Vec<u8>>) = match op {
+            1..=75 => (1, op as usize, Some(vec![0x4c, op])),
+            0x4c if p + 1 < script.len() => {
+                let l = script[p + 1] as usize;
+                (2, l, Some(if l >= 1 && l <= 75 && p % 2 == 0 { vec![l as u8] } else { vec![0x4d, l as u8, 0] }))
+            }
+            0x4d if p + 2 < script.len() => (3, u16::from_le_bytes([script[p + 1], script[p + 2]]) as usize, None),
+            0x4e => return None,
+            _ => (1, 0, None),
+        };
+        if let Some(h) = next_hdr {
+            if p + hdr + len > script.len() {
+                return None;
+            }
+            let mut out = script[..p].to_vec();
+            out.extend(h);
+            out.extend_from_slice(&script[p + hdr..]);
+            let parsed = Script::from_bytes(&out).ok()?;
+            return if parsed.to_bytes() == out { Some(out) } else { None };
+        }
+        p += hdr + len;
+    }
+    None
+}
+
+/// Replacement element derived from the one it replaces ("near neighbours": identical, one field changed, same meaning in another encoding)
+fn derive_out(cur: &MOut, how: &str, given: &MOut) -> Option<MOut> {
+    Some(match how {
+        "same" => cur.clone(),
+        "reencode" => MOut { value: cur.value, script: reencode_first_push(&cur.script)? },
+        "value_only" => MOut { value: cur.value ^ 1, script: cur.script.clone() },
+        "script_only" => MOut { value: cur.value, script: given.script.clone() },
+        _ => return None,
+    })
+}
+
+fn derive_in(cur: &MIn, how: &str, given: &MIn) -> Option<MIn> {
+    Some(match how {
+        "same" => cur.clone(),
+        "reencode" => MIn { script: reencode_first_push(&cur.script)?, ..cur.clone() },
+        "value_only" => MIn { seq: cur.seq ^ 1, ..cur.clone() },
+        "script_only" => MIn { script: given.script.clone(), ..cur.clone() },
+        "vout_only" => MIn { vout: cur.vout ^ 1, ..cur.clone() },
+        _ => return None,
+    })
+}
+
+fn txout_of(m: &MOut) -> Option<TxOut> {
+    Some(TxOut::new(m.value, &Script::from_bytes(&m.script).ok()?))
+}
+
+fn txin_of(m: &MIn) -> Option<TxIn> {
+    Some(TxIn::new(&m.txid, m.vout, &Script::from_bytes(&m.script).ok()?, Some(m.seq)))
+}
+
 fn expected_slots(bytes: &[u8]) -> Option<[Vec<u8>; 3]> {
     // what a history-free object computes for the three memo slots
     let mut fresh = Transaction::from_bytes(bytes).ok()?;
@@ -416,6 +477,7 @@ impl Scenario for TxHistory {
         let flag_w = if flag_w.iter().all(|w| *w == 0) { FLAGS.iter().map(|_| 1).collect() } else { flag_w };
         let restart_on = rng.chance(2, 3);
         let fork_on = rng.chance(2, 3);
+        let bursts_on = rng.chance(1, 5);
         let config = json!({"n_events": n_events, "mutators": mut_names.iter().zip(mut_w.iter()).filter(|(_, w)| **w > 0).map(|(n, _)| *n).collect::<Vec<_>>(),
             "flags": FLAGS.iter().zip(flag_w.iter()).filter(|(_, w)| **w > 0).map(|(f, _)| flag_name(*f)).collect::<Vec<_>>(), "restart": restart_on, "fork": fork_on});
 
@@ -468,6 +530,28 @@ impl Scenario for TxHistory {
                         }
                     }
                     let m = mut_names[rng.weighted(&w)];
+                    if bursts_on && rng.chance(1, 6) && matches!(m, "set_input" | "set_output" | "add_inputs" | "add_outputs") {
+                        if (m == "set_input" && n_in == 0) || (m == "set_output" && n_out == 0) || n_in > 1500 || n_out > 1500 {
+                            continue;
+                        }
+                        let k = match rng.below(10) {
+                            0 if m.starts_with("set_") => (*rng.pick(&[65_536i64, 65_536, 65_535, 65_537])) as u64,
+                            _ => (*rng.pick(&[256i64, 256, 256, 128, 255, 257, 512, 127, 64, 16])) as u64,
+                        };
+                        let is_in = m.contains("input");
+                        let (a, b) = if is_in { (Self::gen_txin(rng, &txids, &scripts), Self::gen_txin(rng, &txids, &scripts)) } else { (Self::gen_txout(rng, &scripts), Self::gen_txout(rng, &scripts)) };
+                        if m == "add_inputs" {
+                            objs[o].0 += (k as usize).min(600);
+                        }
+                        if m == "add_outputs" {
+                            objs[o].1 += (k as usize).min(600);
+                        }
+                        events.push(json!({"op": "burst", "obj": o, "what": m, "n": k, "idx": if is_in { rng.usize(n_in.max(1)) } else { rng.usize(n_out.max(1)) }, "a": a, "b": b}));
+                        if let Some((ho, s, 0)) = hot {
+                            hot = Some((ho, s, 1));
+                        }
+                        continue;
+                    }
                     let ev = match m {
                         "add_input" | "prepend_input" => {
                             objs[o].0 += 1;
@@ -482,7 +566,7 @@ impl Scenario for TxHistory {
                             if n_in == 0 {
                                 continue;
                             }
-                            json!({"op": m, "obj": o, "idx": rng.usize(n_in), "txin": Self::gen_txin(rng, &txids, &scripts)})
+                            json!({"op": m, "obj": o, "idx": rng.usize(n_in), "txin": Self::gen_txin(rng, &txids, &scripts), "derive": if rng.chance(1, 3) { *rng.pick(&["same", "reencode", "value_only", "script_only", "vout_only"]) } else { "" }})
                         }
                         "add_inputs" => {
                             let k = rng.range(0, 3);
@@ -502,7 +586,7 @@ impl Scenario for TxHistory {
                             if n_out == 0 {
                                 continue;
                             }
-                            json!({"op": m, "obj": o, "idx": rng.usize(n_out), "txout": Self::gen_txout(rng, &scripts)})
+                            json!({"op": m, "obj": o, "idx": rng.usize(n_out), "txout": Self::gen_txout(rng, &scripts), "derive": if rng.chance(1, 3) { *rng.pick(&["same", "reencode", "reencode", "value_only", "script_only"]) } else { "" }})
                         }
                         "add_outputs" => {
                             let k = rng.range(0, 3);
@@ -638,7 +722,7 @@ impl Scenario for TxHistory {
 
             match op.as_str() {
                 "add_input" | "prepend_input" | "insert_input" | "set_input" => {
-                    let (txin, min) = match ev.get("txin").and_then(mk_txin) {
+                    let (mut txin, mut min) = match ev.get("txin").and_then(mk_txin) {
                         Some(x) => x,
                         None => {
                             ctx.skip();
@@ -647,6 +731,16 @@ impl Scenario for TxHistory {
                     };
                     let idx = jusize(ev, "idx");
                     let n = objs[o].model.ins.len();
+                    let derive = jstr(ev, "derive");
+                    if op == "set_input" && !derive.is_empty() && idx < n && objs[o].model_valid {
+                        if let Some(d) = derive_in(&objs[o].model.ins[idx], derive, &min) {
+                            if let Some(t) = txin_of(&d) {
+                                ctx.probe(&format!("replacement_derived:{}", derive));
+                                txin = t;
+                                min = d;
+                            }
+                        }
+                    }
                     match op.as_str() {
                         "insert_input" if idx > n => {
                             ctx.skip();
@@ -683,6 +777,84 @@ impl Scenario for TxHistory {
                     }
                     is_mutator = true;
                 }
+                "burst" => {
+                    // the same kind of mutator many times in a row with nothing in between: counts around powers of two
+                    let what = jstr(ev, "what").to_string();
+                    let k = jusize(ev, "n").min(70_000);
+                    let idx = jusize(ev, "idx");
+                    arg_class = format!("{}x{}", what, k);
+                    match what.as_str() {
+                        "set_input" | "add_inputs" => {
+                            let (a, b) = match (ev.get("a").and_then(mk_txin), ev.get("b").and_then(mk_txin)) {
+                                (Some(a), Some(b)) => (a, b),
+                                _ => {
+                                    ctx.skip();
+                                    continue;
+                                }
+                            };
+                            if what == "set_input" {
+                                if idx >= objs[o].model.ins.len() || k == 0 {
+                                    ctx.skip();
+                                    continue;
+                                }
+                                ctx.event(seq, &op, &arg_class);
+                                let t = &mut objs[o].tx;
+                                lib!("set_input (burst)", {
+                                    for j in 0..k {
+                                        t.set_input(idx, if j % 2 == 0 { &a.0 } else { &b.0 });
+                                    }
+                                });
+                                objs[o].model.ins[idx] = if (k - 1) % 2 == 0 { a.1 } else { b.1 };
+                            } else {
+                                let k = k.min(600);
+                                ctx.event(seq, &op, &arg_class);
+                                let list: Vec<TxIn> = (0..k).map(|j| if j % 2 == 0 { a.0.clone() } else { b.0.clone() }).collect();
+                                let t = &mut objs[o].tx;
+                                lib!("add_inputs (burst)", t.add_inputs(list));
+                                for j in 0..k {
+                                    objs[o].model.ins.push(if j % 2 == 0 { a.1.clone() } else { b.1.clone() });
+                                }
+                            }
+                        }
+                        _ => {
+                            let (a, b) = match (ev.get("a").and_then(mk_txout), ev.get("b").and_then(mk_txout)) {
+                                (Some(a), Some(b)) => (a, b),
+                                _ => {
+                                    ctx.skip();
+                                    continue;
+                                }
+                            };
+                            if what == "set_output" {
+                                if idx >= objs[o].model.outs.len() || k == 0 {
+                                    ctx.skip();
+                                    continue;
+                                }
+                                ctx.event(seq, &op, &arg_class);
+                                let t = &mut objs[o].tx;
+                                lib!("set_output (burst)", {
+                                    for j in 0..k {
+                                        t.set_output(idx, if j % 2 == 0 { &a.0 } else { &b.0 });
+                                    }
+                                });
+                                objs[o].model.outs[idx] = if (k - 1) % 2 == 0 { a.1 } else { b.1 };
+                            } else {
+                                let k = k.min(600);
+                                ctx.event(seq, &op, &arg_class);
+                                let list: Vec<TxOut> = (0..k).map(|j| if j % 2 == 0 { a.0.clone() } else { b.0.clone() }).collect();
+                                let t = &mut objs[o].tx;
+                                lib!("add_outputs (burst)", t.add_outputs(list));
+                                for j in 0..k {
+                                    objs[o].model.outs.push(if j % 2 == 0 { a.1.clone() } else { b.1.clone() });
+                                }
+                            }
+                        }
+                    }
+                    ctx.probe("mutator_burst");
+                    if any_filled {
+                        ctx.probe("mutator_burst_after_forkid_sighash");
+                    }
+                    is_mutator = true;
+                }
                 "add_inputs" => {
                     let arr = ev.get("txins").and_then(|a| a.as_array()).cloned().unwrap_or_default();
                     let parsed: Vec<(TxIn, MIn)> = arr.iter().filter_map(mk_txin).collect();
@@ -698,7 +870,7 @@ impl Scenario for TxHistory {
                     is_mutator = !arr.is_empty();
                 }
                 "add_output" | "prepend_output" | "insert_output" | "set_output" => {
-                    let (txout, mout) = match ev.get("txout").and_then(mk_txout) {
+                    let (mut txout, mut mout) = match ev.get("txout").and_then(mk_txout) {
                         Some(x) => x,
                         None => {
                             ctx.skip();
@@ -707,6 +879,16 @@ impl Scenario for TxHistory {
                     };
                     let idx = jusize(ev, "idx");
                     let n = objs[o].model.outs.len();
+                    let derive = jstr(ev, "derive");
+                    if op == "set_output" && !derive.is_empty() && idx < n && objs[o].model_valid {
+                        if let Some(d) = derive_out(&objs[o].model.outs[idx], derive, &mout) {
+                            if let Some(t) = txout_of(&d) {
+                                ctx.probe(&format!("replacement_derived:{}", derive));
+                                txout = t;
+                                mout = d;
+                            }
+                        }
+                    }
                     match op.as_str() {
                         "insert_output" if idx > n => {
                             ctx.skip();
